@@ -549,6 +549,16 @@ fn cmd_run_one(args: &[String]) -> i32 {
     if has_flag(args, "--no-arena") {
         plan.cfg.insert("arena".into(), 0);
     }
+    // --cfg key=value[,key=value...] overrides configuration entries of the generated plan (diagnostics)
+    if let Some(kv) = arg_val(args, "--cfg") {
+        for item in kv.split(',') {
+            if let Some((k, v)) = item.split_once('=') {
+                if let Ok(v) = v.parse::<i64>() {
+                    plan.cfg.insert(k.to_string(), v);
+                }
+            }
+        }
+    }
     if let Some(n) = arg_val(args, "--max-ops").and_then(|s| s.parse::<usize>().ok()) {
         plan.ops.truncate(n);
     }
